@@ -170,6 +170,7 @@ type modelEval struct {
 	fixed   []string
 	cache   map[Term]*sx
 	sortHint map[Term]string
+	hintsCommitted bool
 	queries int
 	failed  bool
 }
@@ -191,18 +192,25 @@ func (m *modelEval) eval(terms []Term) bool {
 	for _, f := range m.fixed {
 		q += "(assert " + f + ")\n"
 	}
-	qHinted := q
-	for _, h := range m.tr.firstIterHints {
-		qHinted += "(assert " + h + ")\n"
-	}
+	var small []string
 	for _, t := range need {
 		switch m.sortHint[t] {
 		case "Val":
-			qHinted += "(assert (valSmall " + t + "))\n"
+			small = append(small, "(valSmall "+t+")")
 		case "Slice":
-			qHinted += "(assert (sliceSmall " + t + "))\n"
+			small = append(small, "(sliceSmall "+t+")")
 		}
 	}
+	// hint levels, strongest first; the level that succeeds is committed for later rounds
+	type level struct{ extra []string }
+	var levels []level
+	if !m.hintsCommitted {
+		levels = append(levels,
+			level{append(append(append([]string{}, small...), m.tr.firstIterHints...), m.tr.callHints...)},
+			level{append(append([]string{}, small...), m.tr.firstIterHints...)},
+			level{append([]string{}, m.tr.firstIterHints...)})
+	}
+	levels = append(levels, level{small}, level{nil})
 	cfg := *m.c.cfg
 	cfg.Race = false
 	if cfg.TimeoutMs > 15000 {
@@ -211,14 +219,28 @@ func (m *modelEval) eval(terms []Term) bool {
 	m.queries++
 	tail := "(check-sat)\n(get-value (" + strings.Join(need, " ") + "))\n"
 	var r solveResult
-	for _, qq := range []string{qHinted, q} {
+	for li, lv := range levels {
+		qq := q
+		for _, h := range lv.extra {
+			qq += "(assert " + h + ")\n"
+		}
 		for _, s := range []string{"z3-new", "z3", "cvc5"} {
 			r = runSolver(s, qq+tail, &cfg, true, fmt.Sprintf("model%d", m.queries))
 			if r.status == "sat" {
 				break
 			}
 		}
-		if r.status == "sat" || qq == q {
+		if r.status == "sat" {
+			if !m.hintsCommitted {
+				m.hintsCommitted = true
+				if li < 3 {
+					for _, h := range lv.extra {
+						if !strings.HasPrefix(h, "(valSmall") && !strings.HasPrefix(h, "(sliceSmall") {
+							m.fixed = append(m.fixed, h)
+						}
+					}
+				}
+			}
 			break
 		}
 	}
@@ -653,6 +675,15 @@ func (c *CheckCtx) tryReplay(f *Failure, b *strings.Builder) {
 		fmt.Fprintf(b, "  call: %s(%s)\n", root.Name(), strings.Join(argExprs, ", "))
 		for _, n := range g.notes {
 			fmt.Fprintf(b, "  note: %s\n", n)
+		}
+		fmt.Fprintf(b, "  raw model values:\n")
+		var ks []string
+		for k := range m.cache {
+			ks = append(ks, k)
+		}
+		sort.Strings(ks)
+		for _, k := range ks {
+			fmt.Fprintf(b, "    %s = %s\n", k, m.cache[k].String())
 		}
 		out, confirmed, ran := c.runReplayTest(pkg.PkgPath, pkg.Name, src)
 		fmt.Fprintf(b, "\n--- replay test (go test -overlay, real code) ---\n%s\n--- output ---\n%s\n", src, out)
